@@ -174,7 +174,84 @@ func checkDiagnostics(text []byte) (msg string, had bool) {
 	return "", true
 }
 
+// checkHeld: what the caller got for text a - the line-start table, the parsed
+// source with its diagnostics - still says the same after another text b went
+// through the same functions. (Results are the caller's; a later call for
+// another text has no business changing them.)
+func checkHeld(a, b []byte) string {
+	var msg string
+	func() {
+		defer func() {
+			if p := recover(); p != nil {
+				msg = fmt.Sprintf("held results for %q then %q: panic: %v", a, b, p)
+			}
+		}()
+		tabA := formula.ComputeLineStarts(a)
+		wantTab := fmt.Sprint(refLineStarts(a))
+		if fmt.Sprint(tabA) != wantTab {
+			return // reported by checkLineTable
+		}
+		srcA := obs.Parse(a).Src
+		var fmtA []string
+		var posA []formula.Position
+		offs := []int{0, len(a) / 2, len(a)}
+		if srcA != nil {
+			for _, d := range srcA.Diagnostics {
+				fmtA = append(fmtA, formula.FormatDiagnostic(srcA, d))
+				offs = append(offs, d.Start)
+			}
+			for _, o := range offs {
+				posA = append(posA, formula.GetFileLineAndCharacterFromPosition(srcA, o))
+			}
+		}
+		// another text goes through the same functions
+		tabB := formula.ComputeLineStarts(b)
+		formula.PositionToLineAndCharacter(b, len(b))
+		if srcB := obs.Parse(b).Src; srcB != nil {
+			for _, d := range srcB.Diagnostics {
+				formula.FormatDiagnostic(srcB, d)
+			}
+			formula.GetFileLineAndCharacterFromPosition(srcB, len(b))
+		}
+		if fmt.Sprint(tabA) != wantTab {
+			msg = fmt.Sprintf("the line-start table returned for %q was %s and reads %v after the table for %q was computed", a, wantTab, tabA, b)
+			return
+		}
+		if want := fmt.Sprint(refLineStarts(b)); fmt.Sprint(tabB) != want {
+			msg = fmt.Sprintf("the line-start table of %q reads %v (want %s) after positions in it were looked up", b, tabB, want)
+			return
+		}
+		if srcA != nil {
+			for i, d := range srcA.Diagnostics {
+				if f := formula.FormatDiagnostic(srcA, d); f != fmtA[i] {
+					msg = fmt.Sprintf("diagnostic %d of %q was formatted as %q and is formatted as %q after %q was parsed", i, a, fmtA[i], f, b)
+					return
+				}
+			}
+			for i, o := range offs {
+				if p := formula.GetFileLineAndCharacterFromPosition(srcA, o); p != posA[i] {
+					msg = fmt.Sprintf("offset %d of %q was at (%d,%d) and is at (%d,%d) after %q was parsed", o, a, posA[i].Line, posA[i].Column, p.Line, p.Column, b)
+					return
+				}
+				wl, wc := directLineCol(a, o)
+				if posA[i].Line != wl || posA[i].Column != wc {
+					msg = fmt.Sprintf("GetFileLineAndCharacterFromPosition(%q, %d) = (%d,%d), direct count (%d,%d)", a, o, posA[i].Line, posA[i].Column, wl, wc)
+					return
+				}
+			}
+		}
+	}()
+	return msg
+}
+
 func init() {
+	h.RegisterReplay("c15-held", func(raw json.RawMessage) string {
+		c, err := h.Decode[[2]textCase](raw)
+		if err != nil {
+			return "bad replay: " + err.Error()
+		}
+		return checkHeld([]byte(c[0].text()), []byte(c[1].text()))
+	})
 	reg := func(kind string, f func([]byte) string) {
 		h.RegisterReplay(kind, func(raw json.RawMessage) string {
 			c, err := h.Decode[textCase](raw)
@@ -216,7 +293,7 @@ func multiBreak(text string) bool {
 // TestC15LineTables: every text of length <=k over {a, é, LF, CR, U+2028, U+2029, U+0085, SP} x every offset.
 func TestC15LineTables(t *testing.T) {
 	k := h.N(5, 7)
-	run := h.Begin("C15", "line-tables", fmt.Sprintf("bounded-exhaustive: every text of 0..%d symbols over {a, é, LF, CR, U+2028, U+2029, U+0085, SP} (CRLF arises as CR+LF) x every byte offset 0..len; oracle: reference line-start list and a direct count of line terminators wholly before the offset (CRLF once), column in bytes; non-trivial: >=2 different line-break forms, a CRLF, or a break as the last character", k))
+	run := h.Begin("C15", "line-tables", fmt.Sprintf("bounded-exhaustive: every text of 0..%d symbols over {a, é, LF, CR, U+2028, U+2029, U+0085, SP} (CRLF arises as CR+LF) x every byte offset 0..len; oracle: reference line-start list and a direct count of line terminators wholly before the offset (CRLF once), column in bytes; and the results held for the previous text of the enumeration (its table, its parsed source, formatted diagnostics, positions) are unchanged after this text went through the same functions; non-trivial: >=2 different line-break forms, a CRLF, or a break as the last character", k))
 	defer run.End(t)
 	if h.Mine(0) {
 		run.Count(false, "")
@@ -225,6 +302,7 @@ func TestC15LineTables(t *testing.T) {
 		}
 	}
 	var sb strings.Builder
+	prevText := "x\n\ny +"
 	enumSeq(len(c15LineSyms), k, func(seq []int) {
 		if run.NViolations() >= 3 {
 			return
@@ -242,6 +320,10 @@ func TestC15LineTables(t *testing.T) {
 		if msg := checkLineTable([]byte(text)); msg != "" {
 			run.Fail("c15-lines", mkTextCase(text, ""), msg)
 		}
+		if msg := checkHeld([]byte(prevText), []byte(text)); msg != "" {
+			run.Fail("c15-held", [2]textCase{mkTextCase(prevText, ""), mkTextCase(text, "")}, msg)
+		}
+		prevText = text
 	})
 	run.Exhaustive()
 }
@@ -367,12 +449,14 @@ func TestC15RangesExhaustive(t *testing.T) {
 	run.Exhaustive()
 }
 
+var c15PrevDiagText = "total +\nprice +\n\n  * qty"
+
 var c15Breaks = []string{"\n", "\r", "\r\n", "\u2028", "\u2029", "\u0085"}
 
 // TestC15Diagnostics: rejected inputs, multi-line layouts, every line-break form,
 // errors at the very end of the text.
 func TestC15Diagnostics(t *testing.T) {
-	run := h.Begin("C15", "diagnostics", "rapid: (i) generated programs with one or two token-level mutations, (ii) token soups over the full alphabet, (iii) truncated valid programs (error at the very end), all laid out over several lines with random line-break forms including a trailing break; oracle: every diagnostic inside the text and the error string equal to 'pos(line, column) error(code) message' built from the first diagnostic with line/column from a direct count; counted only when a SourceCode with diagnostics is returned; non-trivial: first diagnostic not on line 0, or text with >=2 line-break forms / CRLF / trailing break; distinct by text")
+	run := h.Begin("C15", "diagnostics", "rapid: (i) generated programs with one or two token-level mutations, (ii) token soups over the full alphabet, (iii) truncated valid programs (error at the very end), all laid out over several lines with random line-break forms including a trailing break; oracle: every diagnostic inside the text and the error string equal to 'pos(line, column) error(code) message' built from the first diagnostic with line/column from a direct count; the diagnostics, positions and line table held for the previously generated text are unchanged afterwards; counted only when a SourceCode with diagnostics is returned; non-trivial: first diagnostic not on line 0, or text with >=2 line-break forms / CRLF / trailing break; distinct by text")
 	defer run.End(t)
 	h.RapidSetup(h.N(6000, 1500000), "c15diag")
 	rapid.Check(t, func(rt *rapid.T) {
@@ -444,6 +528,13 @@ func TestC15Diagnostics(t *testing.T) {
 		if msg != "" {
 			run.Pending("diag", "c15-diag", mkTextCase(text, ""), msg)
 			rt.Fatalf("%s", msg)
+		}
+		// the previous rejected text's source and table are still the caller's after this one was processed
+		prev := c15PrevDiagText
+		c15PrevDiagText = text
+		if hm := checkHeld([]byte(prev), []byte(text)); hm != "" {
+			run.Pending("held", "c15-held", [2]textCase{mkTextCase(prev, ""), mkTextCase(text, "")}, hm)
+			rt.Fatalf("%s", hm)
 		}
 	})
 }
